@@ -253,7 +253,8 @@ func rangeNodes(e sx.Sexp, out *[]sx.Sexp) {
 }
 
 // rangeOriginal: among the operands there are two SemVerRanges with the same ranges that print differently (the key of a
-// SemVerRange is the string it was parsed from, Equals compares the parsed ranges): known finding C07-semver-range-original-key
+// SemVerRange WAS the string it was parsed from, Equals compares the parsed ranges): the class of the former finding
+// C07-semver-range-original-key (repaired in /repo 2f932dc; on the repaired tree no failure has this class)
 func rangeOriginal(es ...sx.Sexp) bool {
 	var ns []sx.Sexp
 	for _, e := range es {
@@ -488,7 +489,7 @@ func mutateKind(r *rand.Rand, e sx.Sexp) (sx.Sexp, bool) {
 	case "vr":
 		rv, _ := rangeVals()
 		switch r.Intn(3) {
-		case 0: // another spelling of the same ranges (Equal; the keys differ: the known finding)
+		case 0: // another spelling of the same ranges (Equal, and one key since /repo 2f932dc)
 			for i := 0; i < 20; i++ {
 				if o := rv[r.Intn(len(rv))]; refNorm(o.Args()[1:]) == refNorm(a[1:]) {
 					return o, true
